@@ -27,7 +27,7 @@ func positionExprs() []posExpr {
 		{core.ETern(v("c"), I(-1), I(-2)), "int"}, {core.EGlobal("G_INT"), "int"}, {core.ENeg(core.EGlobal("G_INT")), "int"},
 		{core.EFloat(3, 1), "float"}, {core.EFloat(-3, 1), "float"}, {core.ENeg(core.EFloat(5, 2)), "float"},
 		{bin("div", I(3), I(2)), "float"},
-		{S("a"), "str"}, {S(""), "str"}, {S("<b>"), "str"}, {v("b"), "str"}, {bin("add", S("a"), I(-1)), "str"},
+		{S("a"), "str"}, {S(""), "str"}, {S("<b>"), "str"}, {S("q\"d\\s'x"), "str"}, {bin("add", S("C:\\temp\\"), v("b")), "str"}, {v("b"), "str"}, {bin("add", S("a"), I(-1)), "str"},
 		{v("m", core.AKey("b", false)), "str"}, {v("m", core.AExpr(S("b"), false)), "str"}, {core.EGlobal("G_STR"), "str"},
 		{bin("elvis", v("u"), S("d")), "str"}, {v("ij", core.AKey("k", false)), "str"},
 		{B(true), "bool"}, {B(false), "bool"}, {core.ENot(v("c")), "bool"}, {core.ENot(bin("eq", I(1), I(2))), "bool"},
@@ -36,7 +36,7 @@ func positionExprs() []posExpr {
 		{core.ENull(), "null"}, {v("u"), "undef"}, {v("n"), "null"},
 		{core.EList(I(-1), I(2)), "list"}, {core.EList(), "list"}, {v("x"), "list"}, {core.EFn("range", I(2)), "list"},
 		{core.EList(core.ENeg(v("a"))), "list"},
-		{core.EMap("b", I(-1)), "map"}, {core.EMap(), "map"}, {v("m"), "map"}, {core.EMap("b", core.ENeg(v("a")), "s", S("z")), "map"},
+		{core.EMap("b", I(-1)), "map"}, {core.EMap("b", S("say \"hi\""), "s", S("back\\slash")), "map"}, {core.EMap(), "map"}, {v("m"), "map"}, {core.EMap("b", core.ENeg(v("a")), "s", S("z")), "map"},
 	}
 }
 
@@ -66,6 +66,7 @@ func PositionFamily(ctx *core.Ctx) {
 			{"elseif", []core.Cmd{core.CIf([]core.Cmd{core.CBr(core.EBool(false), []core.Cmd{F}), core.CBr(e, []core.Cmd{T})}, core.Opt(true, []core.Cmd{F}))}, true},
 			{"let", []core.Cmd{core.CLetV("z", e), core.CPrint(core.EFn("isNonnull", z())), core.CPrint(core.EBin("elvis", z(), core.EStr("?")))}, true},
 			{"param", []core.Cmd{core.CCall("t.c", "none", nil, core.CPV("z", e))}, true},
+			{"param-attr", []core.Cmd{func() core.Cmd { c := core.CCall("t.c", "none", nil, core.CPV("z", e)); c["paramattrs"] = true; return c }()}, true},
 			{"case", []core.Cmd{core.CSwitch(e, []core.Cmd{core.CCase([]core.E{core.EStr("zz"), e}, []core.Cmd{T})}, core.Opt(true, []core.Cmd{F}))}, true},
 			{"list-elem", []core.Cmd{core.CLetV("z", core.EList(core.EInt(0), e)), core.CPrint(core.EFn("length", z()))}, true},
 			{"map-value", []core.Cmd{core.CLetV("z", core.EMap("k", e)), core.CPrint(core.EFn("isNonnull", core.EVar("z", core.AKey("k", false))))}, true},
@@ -90,6 +91,14 @@ func PositionFamily(ctx *core.Ctx) {
 				core.CCall("t.c", "none", nil, core.CPC("z", []core.Cmd{core.CCall("t.i", "all", nil)})), core.CLog([]core.Cmd{core.CCall("t.i", "none", nil)})}, ei == 0},
 			{"tern-branch", []core.Cmd{core.CPrint(core.ETern(core.EVar("c"), e, e))}, pe.typ != "undef"},
 		}
+		// a print through every directive: an undefined value is an error whatever
+		// directive follows (the other values are judged where the model knows the directive)
+		for _, dn := range []string{"json", "id", "noAutoescape", "escapeHtml", "escapeUri", "escapeJsString", "changeNewlineToBr", "text", "bidiSpanWrap"} {
+			positions = append(positions, pos{"print-dir-" + dn, []core.Cmd{core.CPrint(e, core.CDir(dn))}, pe.typ == "undef" || pe.typ == "null" || ei%7 == 0})
+		}
+		positions = append(positions, pos{"print-dir-truncate", []core.Cmd{core.CPrint(e, core.CDir("truncate", core.EInt(3)))}, pe.typ == "undef" || ei%7 == 0},
+			pos{"print-dir-insertWordBreaks", []core.Cmd{core.CPrint(e, core.CDir("insertWordBreaks", core.EInt(3)))}, pe.typ == "undef" || ei%7 == 0},
+			pos{"print-dir-chain", []core.Cmd{core.CPrint(e, core.CDir("noAutoescape"), core.CDir("json"))}, pe.typ == "undef" || ei%7 == 0})
 		for _, po := range positions {
 			if !po.ok {
 				continue
